@@ -157,8 +157,8 @@ def run(ctx):
     # in-situ corpus (also gives real CFGs)
     import df_corpus, pool
 
-    progs = df_corpus.programs(ctx.seed, ctx.pick(12, 1500))
-    pols = ctx.pick(["native", "lifo", "rand"], ["native", "min", "max", "fifo", "lifo", "rand"])
+    progs = df_corpus.programs(ctx.seed, ctx.pick(24, 1500))
+    pols = ctx.pick(["native", "min", "lifo", "rand"], ["native", "min", "max", "fifo", "lifo", "rand"])
     jobs = [(n, s, p, ctx.seed + i) for i, (n, s) in enumerate(progs) for p in pols]
     ctx.log(f"in-situ: {len(progs)} programs x {len(pols)} policies")
     res = pool.map_jobs(insitu_job, jobs, chunksize=8)
@@ -171,7 +171,7 @@ def run(ctx):
             crashes.append(r)
         for run_ in r["runs"]:
             g = run_["graph"]
-            if g.get("partial") or not run_["closed"] or g["n"] > ctx.pick(18, 60):
+            if g.get("partial") or not run_["closed"] or g["n"] > ctx.pick(24, 60):
                 skipped_partial += 1
                 continue
             if run_["mode"] == "assign" and not g["iu"]:
@@ -210,13 +210,13 @@ def run(ctx):
     ctx.log(f"model exploration done: {len(wrong)} (graph, analysis) pairs where some schedule misses the path solution")
 
     # ---- 2. binding ---------------------------------------------------------------------------
-    sample = fam[:: max(1, len(fam) // ctx.pick(60, 1500))] + rgraphs[: ctx.pick(40, 2500)]
-    runs_a = real_runs_abstract(sample, ctx.seed, ctx.pick(1, 8))
+    sample = fam[:: max(1, len(fam) // ctx.pick(60, 1500))] + rgraphs[: ctx.pick(80, 2500)]
+    runs_a = real_runs_abstract(sample, ctx.seed, ctx.pick(2, 8))
     small = [g for g in sample if g["n"] <= 3][: ctx.pick(15, 400)]
     base = len(sample)
     for i, g in enumerate(small):
         for mode in ("live", "assign"):
-            for r in dfs_schedules(g, mode, ctx.pick(12, 200)):
+            for r in dfs_schedules(g, mode, ctx.pick(30, 200)):
                 r["graph"] = sample.index(g) + 1
                 runs_a.append(r)
     ctx.log(f"abstract-graph real runs: {len(runs_a)}")
